@@ -9,6 +9,7 @@ package kv
 import (
 	"context"
 	"encoding/json"
+	"strconv"
 	"testing"
 	"time"
 
@@ -517,6 +518,9 @@ func verifRawCall(m string, a c12raw.C12Args) (string, c12raw.C12Args) {
 var verifEpoch = time.Unix(1700000000, 0)
 
 func verifKV(c verifCase) any {
+	// the wrapper caches one go-redis client (8 idle connections) per shard address for the life of the process:
+	// close them when the case is over
+	defer redis.VerifResetClients()
 	var shards []*miniredis.Miniredis
 	var conf Config
 	for i, w := range c.Weights {
@@ -548,6 +552,13 @@ func verifKV(c verifCase) any {
 	sr.Seed(c.Seed)
 	sr.SetTime(verifEpoch)
 	store := New(conf)
+	// every shard's wrapper gets a breaker that never rejects (see redis.VerifNeverReject); the wrappers live
+	// inside the dispatcher: reach them through probe keys
+	for k := 0; k < 4000; k++ {
+		if node, ok := store.(kvStore).dispatcher.Get("verif-probe-" + strconv.Itoa(k)); ok {
+			redis.VerifNeverReject(node.(*redis.Redis))
+		}
+	}
 	raw := red.NewClient(&red.Options{Addr: sr.Addr()})
 	defer raw.Close()
 
